@@ -1,5 +1,5 @@
 import QuriVerif.Props.ReflectLift
-import QuriVerif.Props.C01Pass
+import QuriVerif.Proof.PassSound
 import QuriVerif.Proof.InvSound
 import QuriVerif.Generated.C12Inverse
 /-
